@@ -238,6 +238,21 @@ def rules(ctx):
                  "degree grows by max" if ok else "degree assigned without max(self._degree, ...): can shrink "
                  "below the true degree")
 
+    # caches only grow outside the constructor (upper-bound clause): any
+    # shrinking write in a maintained path is a violation
+    for f_ in P.all_funcs():
+        if f_.name == '__init__' or f_.qual == 'PUSO._create_pubo':
+            continue
+        for node, obj, f, kind, detail in field_writes(f_.node, {'_variables', '_num_binary_variables'}):
+            if f == '_variables':
+                ok = kind == 'call' and detail.func.attr == 'add'
+            else:
+                ok = kind == 'aug' and isinstance(detail[0], ast.Add) and (const_num(detail[1]) or 0) > 0
+            if not ok:
+                ctx.inst('R14.3', f_, node, False,
+                         "%s.%s is written other than by growth (add / += 1) outside the constructor: the "
+                         "cache can fall below the true variables" % (obj, f))
+
     # ------------------------------------------------------------ R14.4
     bo = P.func('BO.__setitem__')
     g1 = registration_profile(ctx, bo, '_mapping', R.self_name(bo))
